@@ -152,6 +152,10 @@ func (p *zzPol) checkInvariant(afterGrowth bool) {
 }
 
 func zzC07Shape() (int, int, int) {
+	if vfConfig("NW", -1) >= 0 {
+		// one pinned shape (used to reach larger regions in the quick tier)
+		return vfConfig("NW", 0), vfConfig("NPB", 0), vfConfig("NPT", 0)
+	}
 	M := vfConfig("M", 2)
 	nw := vfChoose("nw", M+1)
 	npb := vfChoose("npb", M+1)
